@@ -109,7 +109,7 @@ def relative(pkg: Pkg, frm: str, target: str) -> str | None:
 def gen_package(rng: random.Random, name: str = "pk", *, hostile: bool = False, with_docs: bool = False,
                 dup_prob: float = 0.25, ns_prob: float = 0.10, shape_prob: float = 0.10,
                 nmods: tuple[int, int] = (3, 8), foreign: list[Pkg] | tuple = (), foreign_prob: float = 0.35,
-                late: float = 0.0, compose_prob: float = 0.25) -> Pkg:  # noqa: C901, PLR0912, PLR0915
+                late: float = 0.0, compose_prob: float = 0.25, multi_prob: float = 0.45) -> Pkg:  # noqa: C901, PLR0912, PLR0915
     """``ns_prob``: share of freshly bound names (definitions, import aliases) spelled like a structural name of the package
     (own module, ancestors, other modules); ``shape_prob``: share drawn from the underscore shapes (dunder, class-private
     style, sunder, ...); ``foreign``: already generated *other* top-level packages whose modules this one may import
@@ -117,7 +117,11 @@ def gen_package(rng: random.Random, name: str = "pk", *, hostile: bool = False, 
     import graph acyclic across packages as well; ``late`` (opt-in, C05 uses 0.5): probability of 1-2 "late" modules (see layout) that read
     their ancestors; ``compose_prob``: share of first `__all__` statements built from other modules' `__all__` (any
     direction of the tree that is importable at that point, several sources, chains, `+` / `+=` / star-unpacking, through
-    `import m [as n]` + `n.__all__` or `from m import __all__ as n`)."""
+    `import m [as n]` + `n.__all__` or `from m import __all__ as n`); ``multi_prob``: share of from-import statements that
+    carry several names, plain and renamed ones mixed (`from m import a, b as c, d`), in every from-import form (members
+    of a module, sub-modules of a package by `from . import` / `from .. import` / `from a.b import`, sub-modules and
+    members of the package in one statement), written on one line, parenthesised, one name per line, or split into one
+    statement per name."""
     pkg = layout(rng, name, nmods, late)
     foreign_mods: list[str] = []
     for other in foreign:
@@ -156,6 +160,47 @@ def gen_package(rng: random.Random, name: str = "pk", *, hostile: bool = False, 
         # one more `__all__` statement at the end, often for late modules (they are the ones that can read an ancestor)
         is_late = idx > pkg.order.index(name)
         extra_all = 1 if rng.random() < (0.7 if is_late else 0.25) else 0
+        def emit_from(spelled: str, items: list[tuple[str, str | None, str]]) -> None:
+            """One from-import statement (or, for the "split" shape, one per name) binding every (name, asname, kind)."""
+            clauses = [f"{n} as {a}" if a else n for n, a, _ in items]
+            shape = rng.choice(["line", "line", "paren", "multi", "split"]) if len(items) > 1 else "line"
+            if shape == "split":
+                lines.extend(f"from {spelled} import {c}" for c in clauses)
+            elif shape == "paren":
+                lines.append(f"from {spelled} import ({', '.join(clauses)})")
+            elif shape == "multi":
+                lines.append(f"from {spelled} import (\n" + "".join(f"    {c},\n" for c in clauses) + ")")
+            else:
+                lines.append(f"from {spelled} import {', '.join(clauses)}")
+            for n, a, k in items:
+                bound[a or n] = k
+
+        def more_names(items: list[tuple[str, str | None, str]], candidates: list[tuple[str, str]], own_children_plain: bool) -> None:
+            """Extend a from-import with further (name, kind) candidates of the same source, plain or renamed."""
+            if rng.random() >= multi_prob:
+                return
+            rng.shuffle(candidates)
+            for n, k in candidates[: rng.choice([1, 1, 2, 3])]:
+                a = rng.choice([None, None, n + ("_m" if k == "module" else "_x"), special_name(alias=True)])
+                if n in HOOKS and a is None:
+                    a = n + "_x"
+                b = a or n
+                if b in reserved or any(b == (ia or i) for i, ia, _ in items):
+                    continue
+                if b in children and not (own_children_plain and a is None):
+                    continue    # would shadow a sub-module of this package (a plain `from . import child` does not)
+                items.append((n, a, k))
+            rng.shuffle(items)
+
+        def package_offers(package: str) -> list[tuple[str, str]]:
+            """What `from <package> import …` can fetch at this point: its already importable sub-modules, and - when its
+            __init__ is complete by now (late modules reading an ancestor) - its members."""
+            subs = [(m.rsplit(".", 1)[1], "module") for m in earlier if "." in m and m.rsplit(".", 1)[0] == package]
+            names = {n for n, _ in subs}
+            if package in earlier:
+                subs += [(n, k) for n, k in pkg.defs[package].items() if n != "__all__" and n not in names]
+            return subs
+
         for step in range(nstmts + extra_all):
             r = rng.random()
             if step >= nstmts:
@@ -202,8 +247,9 @@ def gen_package(rng: random.Random, name: str = "pk", *, hostile: bool = False, 
                     asname = nm + "_x"
                 if (asname or nm) in children or (asname or nm) in reserved:
                     continue  # would shadow a sub-module of this package (documented Griffe limitation)
-                lines.append(f"from {spelled} import {nm}" + (f" as {asname}" if asname else ""))
-                bound[asname or nm] = pkg.defs[src][nm]
+                items = [(nm, asname, pkg.defs[src][nm])]
+                more_names(items, [(n, pkg.defs[src][n]) for n in src_names if n != nm], own_children_plain=False)
+                emit_from(spelled, items)
             elif r < 0.72:
                 if spelled.startswith("."):
                     # `from . import sibling` / `from .. import pkgmod` forms
@@ -215,8 +261,10 @@ def gen_package(rng: random.Random, name: str = "pk", *, hostile: bool = False, 
                             asname = special_name(alias=True) or asname
                         if ((asname or rest) in children and asname is not None) or (asname or rest) in reserved:
                             continue
-                        lines.append(f"from {dots} import {rest}" + (f" as {asname}" if asname else ""))
-                        bound[asname or rest] = "module"
+                        items = [(rest, asname, "module")]
+                        package = src.rsplit(".", 1)[0]
+                        more_names(items, [c for c in package_offers(package) if c[0] != rest], own_children_plain=package == mod)
+                        emit_from(dots, items)
                         continue
                 if "." in src and src.rsplit(".", 1)[0] != mod and rng.random() < 0.4:
                     # `from a.b import c [as d]`: a sub-module fetched from its package by the absolute spelling (the same
@@ -224,8 +272,9 @@ def gen_package(rng: random.Random, name: str = "pk", *, hostile: bool = False, 
                     parent, rest = src.rsplit(".", 1)
                     asname = rng.choice([None, None, special_name(alias=True) or rest + "_m"])
                     if (asname or rest) not in children and (asname or rest) not in reserved:
-                        lines.append(f"from {parent} import {rest}" + (f" as {asname}" if asname else ""))
-                        bound[asname or rest] = "module"
+                        items = [(rest, asname, "module")]
+                        more_names(items, [c for c in package_offers(parent) if c[0] != rest], own_children_plain=False)
+                        emit_from(parent, items)
                         continue
                 asname = rng.choice([None, "mod_" + src.replace(".", "_")])
                 if asname is not None:
